@@ -30,6 +30,7 @@ struct Plan {
     int64_t skew[4] = {0, 0, 0, 0};
     bool stdin_eof = false, o0 = false, ethpad = false;
     double read0 = 0;
+    uint64_t clkgran = 1;
     std::vector<CanW> can;
     std::vector<StdinW> in;
     std::vector<Mut> mut;
